@@ -909,13 +909,16 @@ impl FileScheduler {
                         let mut merged_bytes = Vec::with_capacity(orig_size as usize);
                         merged_bytes.extend_from_slice(&bytes_vec[updated_index].slice(start..));
                         let mut copy_offset = merged_bytes.len() as u64;
+                        // Do not advance updated_index itself: a later (overlapping)
+                        // request may start inside one of the reads consumed here.
+                        let mut next_index = updated_index;
                         while copy_offset < orig_size {
-                            updated_index += 1;
-                            let next_range = &updated_requests[updated_index];
+                            next_index += 1;
+                            let next_range = &updated_requests[next_index];
                             let bytes_to_take =
                                 (orig_size - copy_offset).min(next_range.end - next_range.start);
                             merged_bytes.extend_from_slice(
-                                &bytes_vec[updated_index].slice(0..bytes_to_take as usize),
+                                &bytes_vec[next_index].slice(0..bytes_to_take as usize),
                             );
                             copy_offset += bytes_to_take;
                         }
